@@ -53,9 +53,13 @@ func scrape(e *Env) (map[string]float64, error) {
 	col := e.Col
 	ch := make(chan prometheus.Metric, 4096)
 	col.Collect(ch)
-	close(ch)
 	out := map[string]float64{}
-	for m := range ch {
+	// (the collector is instrumented: what it sent sits in the scheduler's queue of this channel)
+	for {
+		m, ok := vrt.RecvNow[prometheus.Metric](ch)
+		if !ok {
+			break
+		}
 		var d dto.Metric
 		if err := m.Write(&d); err != nil {
 			return nil, err
@@ -116,6 +120,8 @@ func init() {
 				{Scenario: "c16_race", Params: mustJSON(ScrapeRaceParams{Against: "close"}), Bound: b, Shards: sh},
 				{Scenario: "c16_race", Params: mustJSON(ScrapeRaceParams{Against: "rebalance"}), Bound: b, Shards: sh},
 				{Scenario: "c16_race", Params: mustJSON(ScrapeRaceParams{Against: "open"}), Bound: b, Shards: sh},
+				{Scenario: "c16_race", Params: mustJSON(ScrapeRaceParams{Against: "scrape", Inject: true}), Bound: 1, Shards: 8, Note: "two overlapping scrapes of the one collector (a whole scrape injected at every point of another, plus one deviation): each reports a total lag equal to the sum of its own per-vBucket lags"},
+				{Scenario: "c16_race", Params: mustJSON(ScrapeRaceParams{Against: "scrape"}), Bound: b, Shards: sh, Note: "two overlapping scrapes under every schedule within the bound"},
 				{Scenario: "c16_race", Params: mustJSON(ScrapeRaceParams{Against: "close", Inject: true}), Bound: 1, Shards: 8, Note: "scrape injected at every scheduling point of Close, plus one further deviation"},
 				{Scenario: "c16_race", Params: mustJSON(ScrapeRaceParams{Against: "rebalance", Inject: true}), Bound: 1, Shards: 8},
 				{Scenario: "c16_race", Params: mustJSON(ScrapeRaceParams{Against: "open", Inject: true}), Bound: 1, Shards: 8},
@@ -472,6 +478,21 @@ func scrapeRaceMain(p ScrapeRaceParams) {
 		e.Stream.Open()
 		c.WaitIdle()
 	}
+	if p.Against == "scrape" {
+		// both vBuckets lag behind (by 5 and by 4): the total of a scrape is the sum of ITS per-vBucket figures
+		c.Vb[0].High, c.Vb[1].High = 7, 4
+	}
+	checkLagSum := func(who string, m map[string]float64) {
+		sum := 0.0
+		for k, v := range m {
+			if strings.HasPrefix(k, "cbgo_lag_current{") {
+				sum += v
+			}
+		}
+		if t, ok := m["cbgo_total_lag_current"]; ok && t != sum {
+			vrt.Failf("two overlapping scrapes: %s reports total lag %v, the per-vBucket lags it reports add up to %v", who, t, sum)
+		}
+	}
 	var wg vrt.WaitGroup
 	wg.Add(2)
 	var got map[string]float64
@@ -481,6 +502,13 @@ func scrapeRaceMain(p ScrapeRaceParams) {
 	vrt.GoNamed("actor", func() {
 		defer wg.Done()
 		switch p.Against {
+		case "scrape":
+			// a second scrape of the same collector (prometheus allows overlapping Collect calls)
+			m, err := scrape(e)
+			if err != nil {
+				vrt.Failf("overlapping scrape failed: %v", err)
+			}
+			checkLagSum("the other scrape", m)
 		case "close":
 			e.Stream.Close(false)
 		case "rebalance":
@@ -492,7 +520,11 @@ func scrapeRaceMain(p ScrapeRaceParams) {
 	})
 	if p.Inject {
 		k := vrt.Choose(200, true, "inject-at-point")
-		vrt.InjectAt("actor", k, func() {
+		inject := vrt.InjectAt
+		if p.Against == "scrape" {
+			inject = vrt.InjectAtomic // the other scrape is held between two of its statements for a whole scrape
+		}
+		inject("actor", k, func() {
 			defer wg.Done()
 			t0 := vrt.NowNanos()
 			got, serr = scrape(e)
@@ -510,6 +542,12 @@ func scrapeRaceMain(p ScrapeRaceParams) {
 	vrt.Window(false)
 	if serr != nil {
 		vrt.Failf("scrape racing %s failed: %v", p.Against, serr)
+	}
+	if p.Against == "scrape" {
+		checkLagSum("the scrape", got)
+		vrt.SetOutcome(fmt.Sprintf("scrape|%v", got["cbgo_total_lag_current"]))
+		e.Stream.Close(false)
+		return
 	}
 	// a scrape never waits for the stream: it costs its own requests (no server latency in this scenario), not the
 	// rebalance delay (1 s here) or the rest of a close / open
